@@ -242,6 +242,9 @@ def link_dims(rng, b, p=None):
     p = rng.choice([0.0, 0.3, 0.6]) if p is None else p
     for a in list(b["arrays"]):
         for di, d in enumerate(a["dims"]):
+            if d["k"] == "set" and d["labels"] and "link" not in d and rng.random() < p / 2:
+                d["link"] = {"frame": rng.choice([0, 1])}       # the labels are a text column of a DataFrame
+                continue
             if d["k"] != "range" or "link" in d or di >= len(a["shape"]) or rng.random() >= p:
                 continue
             n = len(d["ticks"])
@@ -1132,7 +1135,16 @@ def build(ctx, r, tag="c"):
                         sd.offset = d["offset"]
                 else:
                     st = da.append_set_dimension()
-                    if d["labels"]:
+                    if d["labels"] and d.get("link"):
+                        col = d["link"]["frame"]
+                        cols = [("l", nix.DataType.String), ("n", nix.DataType.Int64)]
+                        rows = [("" if d.get("lt") == "empty" else "l%d" % k, k) for k in range(d["labels"])]
+                        if col == 1:
+                            cols.reverse()
+                            rows = [(k, t) for t, k in rows]
+                        fr = blk.create_data_frame("f%d_%d" % (i, di), "t.frame", col_dict=dict(cols), data=rows)
+                        st.link_data_frame(fr, col)
+                    elif d["labels"]:
                         st.labels = ["" if d.get("lt") == "empty" else "l%d" % k for k in range(d["labels"])]
             dg = da._h5group.group.get("dimensions")
             for j, d in enumerate(a["dims"]):
